@@ -59,6 +59,17 @@ Proof.
 Qed.
 Print Assumptions C19_str_total_refuted.
 
+(** ... and exactly characterised: an object has a string form if and only if its four
+    authority parts can be derived (they are stored eagerly, or the lazy split of the stored
+    authority succeeds).  So str() of a result of build() or a modifier can fail only through
+    an authority that does not re-split - the F17 class above - and then with the
+    ValueError of that split. *)
+From Yarl Require Import Proofs.StrRecompose.
+Theorem C19_str_total_iff_authority_splits : forall (B : backend) (u : url),
+  (exists m, netloc_parts u = Ok m) <-> (exists t, url_str B u = Ok t).
+Proof. exact str_total_iff_authority. Qed.
+Print Assumptions C19_str_total_iff_authority_splits.
+
 (** Allocation failure inside the compiled quoter's Writer: for every buffer size, every
     output and every allocator behaviour (which of the growth / result allocations fail),
     the call either returns exactly the characters written or raises MemoryError - never a
